@@ -1381,3 +1381,55 @@ M("o8-roots-filtered-off-by-one", "C04", "fire O8", "src/circuit.rs",
         ] {
             output_gate_stack.extend(wires.iter().filter(|&&w| w > shift));
         }""", "seed C04-c: the first emitted gate is never a root")
+
+# ---------------------------------------------------------------- C05
+M("s2-shift-left-operand-only-stamped", "C05", "fire S2", "src/check.rs",
+  """            Op::ShiftLeft | Op::ShiftRight => constrain_type(a, ty)?,""",
+  """            Op::ShiftLeft | Op::ShiftRight => overwrite_ty_if_necessary(&mut a.ty, ty),""", "seed C05-a: literals inside a compound left operand of a shift keep their default width")
+M("s2-if-else-branch-not-constrained", "C05", "fire S2", "src/check.rs",
+  """            constrain_type(then_expr, ty)?;
+            constrain_type(else_expr, ty)?;""",
+  """            constrain_type(then_expr, ty)?;
+            overwrite_ty_if_necessary(&mut else_expr.ty, ty);""", "else branch keeps unconstrained literals")
+M("s2-match-first-clause-only", "C05", "fire S2", "src/check.rs",
+  """            for (_, body) in clauses {
+                constrain_type(body, ty)?;
+            }""",
+  """            if let Some((_, body)) = clauses.first_mut() {
+                constrain_type(body, ty)?;
+            }""", "only the first match clause is constrained")
+M("s1-party-size-from-first-param", "C05", "fire S1", "src/compile.rs",
+  """                let mut wires = Vec::with_capacity(type_size);
+                for _ in 0..type_size {
+                    wires.push(wire);
+                    wire += 1;
+                }
+                input_gates.push(type_size);""",
+  """                let mut wires = Vec::with_capacity(type_size);
+                for _ in 0..type_size {
+                    wires.push(wire);
+                    wire += 1;
+                }
+                input_gates.push(wires.capacity());""", "party size taken from the capacity of the vector (may be larger than the number of wires)")
+M("s1-wires-one-short-for-zero-sized", "C05", "fire S1", "src/compile.rs",
+  """                for _ in 0..type_size {
+                    wires.push(wire);
+                    wire += 1;
+                }
+                input_gates.push(type_size);
+                env.let_in_current_scope(param.name.clone(), wires);""",
+  """                for _ in 0..type_size.max(1) {
+                    wires.push(wire);
+                    wire += 1;
+                }
+                input_gates.push(type_size);
+                env.let_in_current_scope(param.name.clone(), wires);""", "zero-sized parameters get one wire although their party has no bits")
+M("s3-build-caps-output-width", "C05", "fire S3", "src/compile.rs",
+  """        let output_gates = compile_block(&fn_def.body, self, &mut env, &mut circuit);
+        Ok((circuit.build(output_gates), fn_def, const_sizes))""",
+  """        let output_gates = compile_block(&fn_def.body, self, &mut env, &mut circuit);
+        Ok((circuit.build(output_gates[..output_gates.len().min(64)].to_vec()), fn_def, const_sizes))""", "results wider than 64 bits are cut off")
+M("s4-b-rows-not-truncated", "C05", "fire S4", "src/compile.rs",
+  """        let tag_b = b.remove(join_ty_size);
+        b.truncate(elem_bits_b);""",
+  """        let tag_b = b.remove(join_ty_size);""", "seed C05-b: rows of b keep the padding")
